@@ -319,6 +319,42 @@ func runC19(r *Run) {
 	kinds := []string{"plain", "loading", "hybrid", "hybrid-loading"}
 	sizes := []int64{2, 64, 5000}
 	reps := mustAtoi(r.Args["reps"], 1)
+	// Long-lived caches: the periodic maintenance tick (1 s) only ever runs in a cache that lives that long, so
+	// one cache of each kind is built now, written to a little, left alone while the workloads below run, and
+	// closed at the end from a goroutine that shares no lock with its ticker: a Close that touches what the tick
+	// reads without the tick's lock is then an unordered pair for the detector.
+	type idler struct {
+		kind string
+		api  *c19API
+		born time.Time
+	}
+	var idlers []idler
+	var idleNotes atomic.Int64
+	for _, kind := range kinds {
+		api, err := c19Build(kind, 64, &idleNotes)
+		if err != nil {
+			r.Broken("build: %v", err)
+			return
+		}
+		for k := 0; k < 200; k++ {
+			api.set(k, int64(k), time.Duration(k%3)*1500*time.Millisecond)
+		}
+		idlers = append(idlers, idler{kind, api, time.Now()})
+	}
+	defer func() {
+		for _, id := range idlers {
+			if d := time.Until(id.born.Add(2500 * time.Millisecond)); d > 0 {
+				time.Sleep(d)
+			}
+			lived := time.Since(id.born)
+			done := make(chan struct{})
+			go func() { id.api.close(); close(done) }()
+			<-done
+			r.Count("long_lived_caches_closed", 1)
+			r.CountMax("long_lived_cache_age_ms_max", lived.Milliseconds())
+			r.Distinct(id.kind + "/Close-after-maintenance-ticks")
+		}
+	}()
 	for rep := 0; rep < reps; rep++ {
 		idx := r.Shard*reps + rep
 		kind := kinds[idx%len(kinds)]
